@@ -14,5 +14,8 @@ CLAIMS = {
 
  'C17': dict(text='bounded proof: each PDU definition (v0/v1/v2, Rx/Tx, batched parts) is executed symbolically through codec.py: encode(vals) equals the documented octet layout for all field values; decode(encode(v)) == v; reserved bits ignored; wrong version nibble rejected for every other nibble value; burst length per modulation code; the octets produced by data_msg.gen_msg() for every v0/v1 shape (incl. legacy padding) decode to identical values.',
              note='trusted: z3, pysym models (int.from_bytes/to_bytes, join), layouts transcribed in vf/checks/c17.py; sub-PDU count <= 2 quick / <= 8 thorough'),
+
+ 'C16': dict(text='bounded check: protocol DEFINITIONS are enumerated (all single-field definitions of the grammar) and sampled (seeded composites with nesting, sequences, optional and length-prefixed fields) - that quantifier is not solved; for each definition all VALUES and all OCTETS are symbolic and z3 decides: to_bytes == independent reference encoder, decode(encode(v)) == v, exact consumed length, re-encode of any accepted octet string is canonical, short/trailing/fixed-mismatch -> DecodeError, out-of-range int / wrong buffer length -> EncodeError and nothing else, over-wide bit-field values masked.',
+             note='trusted: z3, pysym models, the reference encoder/decoder of vf/checks/c16.py, the exact integer model of CPython int/int true division by +-2^j (conformance-tested); definitions outside the grammar are outside the claim'),
 }
 NOT_APPLICABLE = {}
